@@ -74,7 +74,7 @@ class C02(Prop):
     thorough_budget = 30000
     quick_deadline_s = 100
     thorough_deadline_s = 800
-    all_branches = ["o:ok", "o:fail-ros", "py:ok", "py:fail", "pyl:ok", "pyl:fail", "d:keyword", "d:compare", "d:math", "d:tool", "d:literal", "forced", "dg:text:ok", "dg:text:fail", "cdg:returned"]
+    all_branches = ["o:ok", "o:fail-ros", "py:ok", "py:fail", "pyl:ok", "pyl:fail", "pyt:ok", "pyt:fail", "d:keyword", "d:compare", "d:math", "d:tool", "d:literal", "forced", "dg:text:ok", "dg:text:fail", "cdg:returned"]
     assumptions = [
         "Python's semantics of operators, calls and truthiness is the environment: tracer objects script it for the "
         "orchestration check, the real interpreter (restricted eval over the same allow-listed names) supplies it for "
@@ -145,10 +145,24 @@ class C02(Prop):
             args.append(rng.choice(["*[1, 2]", "*()", "*pi"]))
         return f"{rng.choice(['ident', 'ident', 'tool1'])}({', '.join(args + kws)})"
 
+    def _tracer_tool_text(self, rng, depth):
+        """a tool call over tracers (clean constructs only: both CPython's eval and the log can express them)"""
+        G = lambda: mito.gen_tracer(rng, depth, "any", True)
+        args = [G() for _ in range(rng.choice([0, 1, 1, 2]))]
+        kws = [f"{n}={G()}" for n in rng.sample(mito.KWN, rng.choice([0, 0, 1, 2]))]
+        if kws and rng.random() < 0.08:
+            kws.append(f"{kws[0].split('=')[0]}={G()}")
+        return f"{rng.choice(['ident', 'tool1', 'first', 'nosuch'])}({', '.join(args + kws)})"
+
     def _case(self, rng, depth):
         lines = mito.header(rng, self.facts, tools=self.TOOLS, silent=True, ros=(1000, 1))
         for _ in range(rng.choice([6, 8, 10])):
             k = rng.random()
+            if rng.random() < 0.07:
+                src = self._tracer_tool_text(rng, min(depth, 2))
+                lines.append(mito.met_line(rng.choice(["tool", "auto"]), src))
+                lines.append(mito.pyevt_line(src))
+                continue
             if rng.random() < 0.06:
                 lines += self._big_lines(rng, self._tier)
                 continue
@@ -245,7 +259,23 @@ class C02(Prop):
                 cases.append({"lines": lines, "note": "operator classes over tracers"})
             lines.append(mito.met_line("math", src))
             lines.append(mito.pyev_line(src))
-        spaces.append({"name": "every operator / comparison pair / call shape over tracers (walker vs eval)", "cases": cases})
+        TT = ["tool1()", "tool1(t0)", "tool1(t0, t1)", "tool1(k=t0)", "tool1(t0, k=t1, base=t2)", "tool1(f0(t0), [t1])",
+              "tool1(t0 < t1 < t2)", "tool1(t0 or t1, k=not t2)", "tool1(t0 if t1 else t2)", "tool1(k=t0, k=t1)",
+              "tool1(f0(k=t0, k=t1))", "nosuch(t0)", "tool1(zz)", "tool1(t0, zz)", "tool1(k=zz)",
+              "ident(t0 + t1, k=(t2, [t3]))", "first(f1(t0, k=t1), t2)", "ident(f0(t0) if t1 else f1(t2), base=-t3)",
+              "tool1(t0 if t1 else f0(k=t2, k=t3))", "ident((t0 < t1) + t2)", "tool1(True, None, 7, k=2.5)",
+              "ident(k=t0, base=t1, ndigits=t2, key=t3)", "first()", "tool1(t0 ** t1, t2 // t3)"]
+        for i, src in enumerate(TT):
+            if i % 9 == 0:
+                lines = mito.header(rng, self.facts, tools=self.TOOLS, silent=True, ros=(1000, 1))
+                if i >= 9:      # later groups: a body that raises, a newer version of a body
+                    lines.append(mito.tool_line("tool1", [], 2, "nodoc_msg" if i >= 18 else None))
+                cases.append({"lines": lines, "note": "tool calls over tracers"})
+            lines.append(mito.met_line("tool", src))
+            lines.append(mito.met_line("auto", src))
+            lines.append(mito.pyevt_line(src))
+        spaces.append({"name": "every operator / comparison pair / call shape over tracers (walker vs eval); tool calls over "
+                               "tracers (tool pathway vs eval with the tools bound to their names)", "cases": cases})
         # history dependence on fixed texts with bare true / false
         import random as _r
         hr = _r.Random("C02-hist")
@@ -395,6 +425,7 @@ class C02(Prop):
         # Python's own evaluation of each text in this case (plain namespace / logic namespace), wherever it stands
         py = {l.split(" ")[1]: o for l, o in zip(L, obs) if l.startswith("pyev ")}
         pyl = {l.split(" ")[1]: o for l, o in zip(L, obs) if l.startswith("pyevl ")}
+        pyt = {}          # Python's evaluation of a tool-call text, as registered when the pyevt line stands
         for i, (line, o, x) in enumerate(zip(L, obs, extra)):
             t = line.split(" ")
             if o.startswith(("hang", "crash", "raised", "worker-error")):
@@ -450,6 +481,14 @@ class C02(Prop):
                 eng = o.split(" ")
                 path = eng[1]
                 ref = pyl.get(t[4]) if path == "logic" else py.get(t[4]) if path == "math" else None
+                if path == "tool":
+                    # the pyevt line of this text that FOLLOWS (same registry: no tool line in between)
+                    for j in range(i + 1, len(L)):
+                        if L[j].startswith(("tool ", "untool ", "cleartools", "cfg ")):
+                            break
+                        if L[j].startswith("pyevt ") and L[j].split(" ")[1] == t[4]:
+                            ref = obs[j]
+                            break
                 if ref is None:
                     continue
                 if eng[0].startswith("ok:"):
@@ -458,7 +497,7 @@ class C02(Prop):
                                              o[:120], i))
                     elif ref.split(" ")[0] != eng[0]:
                         out.append(Violation("value_equals_python", ref.split(" ")[0], eng[0] + f" ({path})", i))
-                    elif path == "math" and dedupe_truthy(ref.split(" ")[1]) != dedupe_truthy(eng[3]):
+                    elif path in ("math", "tool") and dedupe_truthy(ref.split(" ")[1]) != dedupe_truthy(eng[3]):
                         out.append(Violation("nothing_dropped", "same primitive applications in the same order: "
                                              + ref.split(" ")[1][:200], eng[3][:200], i))
         if out and "history" in case.get("note", ""):
